@@ -20,6 +20,7 @@ import z3
 from harness.common import *
 from harness import c08 as C08
 from mirsym.oracle import Oracle, BIN
+from mirsym.session import REPO
 
 
 def fresh_process_outputs(ctx, src, opts, n, include=None, extra_env=None):
@@ -49,11 +50,11 @@ def run(ctx):
     ctx.bounds = {'modules': 'C08 usage-graph skeleton with 2-3 symbolic holes per run; the repository fixtures concretely'}
     # the crate must not define mutable global state
     statics = [n for n in S.bodies if n.startswith('static ') or 'thread_local' in n]
-    src_text = ''.join(open(f).read() for f in glob.glob('/repo/wgsl_to_wgpu/src/*.rs'))
+    src_text = ''.join(open(f).read() for f in glob.glob(REPO + '/wgsl_to_wgpu/src/*.rs'))
     import re
     # only non-test code: cut everything from the first #[cfg(test)] of each file
     decl = []
-    for f in glob.glob('/repo/wgsl_to_wgpu/src/*.rs'):
+    for f in glob.glob(REPO + '/wgsl_to_wgpu/src/*.rs'):
         body = open(f).read().split('#[cfg(test)]')[0]
         decl += re.findall(r'^\s*(?:pub\s+)?static\s+(?:mut\s+)?\w+|thread_local!|lazy_static!|OnceLock|OnceCell|AtomicU|Mutex<|RwLock<', body, re.M)
     ctx.queries['discharged'] += 1
